@@ -37,6 +37,52 @@ type readWriter struct {
 func (r *readWriter) Read(p []byte) (n int, err error)  { return r.r.Read(p) }
 func (r *readWriter) Write(p []byte) (n int, err error) { return r.w.Write(p) }
 
+// daemonOverRemoteShell implements the calling convention “daemon mode over
+// remote shell” (rsync --server --daemon .): it speaks the rsync daemon
+// protocol on stdin/stdout against the configured modules.
+//
+// rsync/clientserver.c:start_daemon
+func daemonOverRemoteShell(ctx context.Context, osenv *rsyncos.Env, cfg *rsyncdconfig.Config) error {
+	if cfg == nil {
+		var err error
+		cfg, _, err = rsyncdconfig.FromDefaultFiles()
+		if err != nil {
+			return err
+		}
+	}
+	rsyncdOpts := []rsyncd.Option{
+		rsyncd.WithStderr(osenv.Stderr),
+	}
+	if osenv.DontRestrict {
+		rsyncdOpts = append(rsyncdOpts, rsyncd.DontRestrict())
+	}
+	srv, err := rsyncd.NewServer(cfg.Modules, rsyncdOpts...)
+	if err != nil {
+		return err
+	}
+	conn := rsyncd.NewConnection(osenv.Stdin, osenv.Stdout, "<remote-shell-daemon>")
+	return srv.HandleDaemonConn(ctx, conn)
+}
+
+// anonSSHMain serves the exec request of a session on the anonymous SSH
+// listener. Anybody can open such a session, so unlike Main it accepts exactly
+// one calling convention: the command line rsync uses to reach a daemon over a
+// remote shell (rsync --server --daemon .). Client-mode transfers, remote-shell
+// options and plain server mode on arbitrary paths are refused.
+func anonSSHMain(ctx context.Context, osenv *rsyncos.Env, args []string, cfg *rsyncdconfig.Config) error {
+	if len(args) == 0 {
+		return fmt.Errorf("refusing empty command line")
+	}
+	pc := rsyncopts.NewContext(rsyncopts.NewOptionsWithGokrazyDefaults(osenv))
+	if err := pc.ParseArguments(osenv, args[1:]); err != nil {
+		return err
+	}
+	if !pc.Options.Daemon() || !pc.Options.Server() {
+		return fmt.Errorf("refusing command %q: the anonymous SSH listener only serves the rsync daemon protocol (rsync --server --daemon .)", args)
+	}
+	return daemonOverRemoteShell(ctx, osenv, cfg)
+}
+
 func Main(ctx context.Context, osenv *rsyncos.Env, args []string, cfg *rsyncdconfig.Config) (*rsyncstats.TransferStats, error) {
 	osenv.Logf("Main(osenv=%v, args=%q)", osenv, args)
 	pc := rsyncopts.NewContext(rsyncopts.NewOptionsWithGokrazyDefaults(osenv))
@@ -55,26 +101,7 @@ func Main(ctx context.Context, osenv *rsyncos.Env, args []string, cfg *rsyncdcon
 	// calling convention: daemon mode over remote shell (also builtin SSH)
 	// Example: --server --daemon .
 	if opts.Daemon() && opts.Server() {
-		// start_daemon()
-		if cfg == nil {
-			var err error
-			cfg, _, err = rsyncdconfig.FromDefaultFiles()
-			if err != nil {
-				return nil, err
-			}
-		}
-		rsyncdOpts := []rsyncd.Option{
-			rsyncd.WithStderr(osenv.Stderr),
-		}
-		if osenv.DontRestrict {
-			rsyncdOpts = append(rsyncdOpts, rsyncd.DontRestrict())
-		}
-		srv, err := rsyncd.NewServer(cfg.Modules, rsyncdOpts...)
-		if err != nil {
-			return nil, err
-		}
-		conn := rsyncd.NewConnection(osenv.Stdin, osenv.Stdout, "<remote-shell-daemon>")
-		return nil, srv.HandleDaemonConn(ctx, conn)
+		return nil, daemonOverRemoteShell(ctx, osenv, cfg)
 	}
 
 	// calling convention: command mode (over remote shell or locally)
@@ -304,8 +331,7 @@ func Main(ctx context.Context, osenv *rsyncos.Env, args []string, cfg *rsyncdcon
 				// under the limit of policy layers per process.
 				DontRestrict: true,
 			}
-			_, err := Main(ctx, osenv, args, cfg)
-			return err
+			return anonSSHMain(ctx, osenv, args, cfg)
 		})
 	}
 
